@@ -257,7 +257,7 @@ func Run(r *core.Run) {
 			_ = json.Unmarshal([]byte(opaque), &intent)
 			// (under sha2-512 the add-keys / add-services lifecycles start from the opaque document instead, so that their update re-adds
 			// ids of entries that were created with more members than the update gives them)
-			fromOpaque := bc.code == 19 && (bc.action == "add-public-keys" || bc.action == "add-services")
+			fromOpaque := bc.code == 19 && (bc.action == "add-public-keys" || bc.action == "add-services" || bc.action == "replace")
 			if !fromOpaque && (bc.action == "replace" || bc.action == "add-public-keys" || bc.action == "add-services" || bc.action == "add-also-known-as" || bc.action == "ietf-json-patch") {
 				ci.OpaqueDocument = ""
 				ci.Patches = []patch.Patch{mkPatch(bc.action)}
@@ -280,9 +280,11 @@ func Run(r *core.Run) {
 			}
 			// update with the action's patch (or a default one)
 			ua := bc.action
-			if ua == "" || ua == "replace" {
+			if ua == "" || (ua == "replace" && !fromOpaque) {
 				ua = "add-also-known-as"
 			}
+			// (under sha2-512 the replace lifecycle starts from the opaque document and its update is the replace patch: what the
+			// caller asked for is a document of that patch's keys and services and nothing else)
 			// every operation gets its own window around its own anchoring time (1000, 2000, 3000): the operation before it was
 			// anchored outside that window, so a window compared with anything but the operation's own anchoring time shows
 			var from, until int64
